@@ -9,6 +9,7 @@ import Driver.Solve
 import Driver.Threads
 import Driver.Special
 import Driver.Simd
+import Driver.Matmul
 /-! `adept_model <family>`: line protocol on stdin/stdout, one result line per input line.
     Every import of this file must stay free of Mathlib (the driver is linked natively). -/
 open Adept Adept.Drv
@@ -25,4 +26,5 @@ def main (args : List String) : IO UInt32 := do
   | ["threads"] => runFamily ThreadsDrv.step {}; return 0
   | ["special"] => runFamily SpecialDrv.step (); return 0
   | ["simd"] => runFamily SimdDrv.step (); return 0
+  | ["matmul"] => runFamily MatmulDrv.step {}; return 0
   | _ => IO.eprintln "usage: adept_model <family>"; return 2
